@@ -34,6 +34,9 @@ THEOREMS = [
     "PV.C17.format_fixed_eq_printf",
     "PV.C17.format_exponent_eq_printf",
     "PV.C17.general_decision_eq_printf",
+    "PV.C17.fixed_digits_beyond_1074_are_zeros",
+    "PV.C17.exp_digits_beyond_1100_are_zeros",
+    "PV.C17.format_clamp_invisible",
     "PV.C17.from_hex_inexact_rejected",
     # facts about PV.Dec itself
     "PV.Dec.ofDigits_natDigits",
@@ -591,6 +594,28 @@ def streams(ctx):
     asf = [f"ffmts g {b} l {alt} 1 0 20" for b in fm[::(7 if q else 2)] for alt in (0, 1)]
     neg = [r.replace(f" {b} ", f" {b | SIGN} ") for b in fm[::(11 if q else 3)] if is_finite_bits(b)
            for r in _fmt_reqs([b], cases="l", alts=(0,))]
+    # ---- precisions around the digit clamp of float.rs (MAX_FLOAT_DIGITS = 1100) and around format!'s u16 limit;
+    # the values with the most digits a double can have: 5e-324 (last non-zero decimal at position 1074),
+    # the largest subnormal (767 significant digits, 1074 decimals), f64::MIN_POSITIVE, f64::MAX
+    deep = [f2b(x) for x in (5e-324, 2.225073858507201e-308, 2.2250738585072014e-308, 1.7976931348623157e308,
+                            0.1, 1.5, 1e-5, 0.0001, 123456789.0, 0.0, 1e22, 2.0 ** -1000 * 3)]
+    precs = [340, 750, 751, 752, 766, 767, 768, 1073, 1074, 1075, 1076, 1099, 1100, 1101, 1102, 1103, 1500,
+             65533, 65534, 65535, 65536, 65537, 70000]
+    big = []
+    for b in (deep[:4] + deep[5:6] if q else deep):
+        for pr in precs:
+            for kind in "feg":
+                for alt in ((0,) if pr > 2000 and q else (0, 1)):
+                    big.append(f"ffmt {kind} {b} {pr} l {alt} 0")
+    big += [f"ffmt e {f2b(1.5)} 1200 u 0 0", f"ffmt g {f2b(1e-7)} 65536 u 1 0", f"ffmt f {f2b(float('inf'))} 70000 l 0 0",
+            f"ffmt e {f2b(float('nan'))} 65536 l 0 0", f"ffmt g {f2b(float('inf'))} 65536 u 0 0",
+            f"ffmt f {f2b(0.1)} 200000 l 0 0", f"ffmt e {f2b(0.1)} 200000 l 0 0", f"ffmt g {f2b(1e-9)} 200000 l 1 0"]
+    if not q:
+        big += [f"ffmt f {f2b(5e-324)} 1000000 l 0 0", f"ffmt e {f2b(5e-324)} 1000000 l 0 0"]
+    out.append(Stream("format-precision-clamp-and-u16-limit", big, kind="directed",
+                      note="format_fixed/exponent/general at precisions around the last non-zero digit a double can "
+                           "have (751/767 significant, 1074 decimals), around MAX_FLOAT_DIGITS = 1100 and around "
+                           "format!'s u16 limit (65535, 65536, 70000, 200000); judged by CPython '%'"))
     out.append(Stream("format-general-no-type-and-negative", asf + neg, kind="directed",
                       note="always_shows_fract=true (format() without a type, C18's domain) and negative inputs: "
                            "model correspondence only, no oracle"))
